@@ -43,7 +43,12 @@ type gate struct {
 	entered chan struct{}
 	release chan struct{}
 	once    sync.Once
+	ctx     *sql.Context // context of the evaluation that entered the gate; written before entered is closed
 }
+
+// cancelled reports whether the context of the statement blocked in the gate is cancelled.
+// Only valid after <-entered.
+func (g *gate) cancelled() bool { return g.ctx != nil && g.ctx.Err() != nil }
 
 type gates struct {
 	mu sync.Mutex
@@ -92,7 +97,10 @@ func (f *gateFn) Eval(ctx *sql.Context, row sql.Row) (interface{}, error) {
 		return nil, err
 	}
 	g := f.g.get(v.(int64))
-	g.once.Do(func() { close(g.entered) })
+	g.once.Do(func() {
+		g.ctx = ctx
+		close(g.entered)
+	})
 	select {
 	case <-g.release:
 		return int64(1), nil
